@@ -379,7 +379,9 @@ pub fn shrink<P: Prop>(p: &P, case: &P::Case, clause: &str) -> (P::Case, Viol) {
         .into_iter()
         .find(|v| v.clause == clause)
         .unwrap_or_else(|| viol(clause, "<not reproduced while shrinking>"));
-    let mut budget = 4000usize;
+    // (a case of tens of kilobytes - a size-threshold document - gets fewer shrink attempts: each costs a full check)
+    let big = serde_json::to_string(case).map(|j| j.len()).unwrap_or(0) > 10_000;
+    let mut budget = if big { 300usize } else { 4000usize };
     'outer: loop {
         for cand in p.shrinks(&cur) {
             if budget == 0 {
@@ -638,7 +640,17 @@ pub fn run_prop<P: Prop>(p: &P, cfg: &RunCfg) -> i32 {
             violations += 1;
             let path = write_replay(p, &f.core, &f.original, &f.viol);
             println!("VIOLATION property={} replay={}", id, path);
-            println!("  clause={} cases={} core={} detail={}", f.clause, f.count, f.core_json, f.viol.detail);
+            // (the replay file holds the complete case; the console line abbreviates very long ones)
+            let abbreviate = |t: &str| -> String {
+                if t.len() <= 4000 {
+                    t.to_string()
+                } else {
+                    let head: String = t.chars().take(400).collect();
+                    let tail: String = t.chars().rev().take(200).collect::<Vec<_>>().into_iter().rev().collect();
+                    format!("{} ...<{} bytes in all>... {}", head, t.len(), tail)
+                }
+            };
+            println!("  clause={} cases={} core={} detail={}", f.clause, f.count, abbreviate(&f.core_json.to_string()), abbreviate(&f.viol.detail));
             exit = 1;
         }
     }
